@@ -193,7 +193,7 @@ def gen(seed, tier):
     nvals = rng.choice((2, 3, 4, 6, 6))
     p_idiom = rng.choice((0.0, 0.03, 0.08))
     nonground = rng.random() < 0.3
-    depth_faults = rng.random() < 0.15       # runs with deep facts and operations that overflow the stack (no idioms: their line budget is for small terms)
+    depth_faults = rng.random() < 0.2        # runs with deep facts and operations that overflow the stack (no idioms: their line budget is for small terms)
     if depth_faults:
         p_idiom = 0.0
     if nonground:
@@ -305,6 +305,11 @@ def gen(seed, tier):
                 ops.append(['faultop', what, ki, pat])
                 if what == 'retractall' and not any(is_deep(r) for r in m.store.rows(key)):
                     m.retractall(key, [TM.T(t) for t in pat])
+                if what == 'assert' and rng.random() < 0.6:
+                    # the typical continuation: an ordinary assert on the same predicate right after the one that overflowed
+                    row = row_for(ki)
+                    ops.append(['assert', False, ki, row])
+                    m.add(key, [TM.T(t) for t in row], False)
         else:
             ops.append(['clear'])
             m.clear()
